@@ -3,7 +3,7 @@ Everything is built through the public API of the working tree."""
 from __future__ import annotations
 
 
-def modules():
+def modules(nonfinite: bool = False):
     """List of (name, Hugr) — Module-rooted HUGRs with the attributes the properties name."""
     from hugr import ops, tys, val
     from hugr.build.function import Module
@@ -124,10 +124,11 @@ def modules():
     e.set_single_succ_outputs(e.inputs()[0])
     e.parent_op.extension_delta = ["verif.ext", "logic"]
     cfg.branch_exit(e[0])
-    inf = f.load(FloatVal(math.inf))
-    n = f.add_op(Not, cfg.parent_node[0], metadata={"nan": math.nan, "ninf": -math.inf, "ok": 1.5})
+    # (non-finite floats are not JSON: they are outside the round-trip properties and only serve C03's "the document is JSON" check)
+    inf = f.load(FloatVal(math.inf if nonfinite else 2.5))
+    n = f.add_op(Not, cfg.parent_node[0], metadata={"nan": math.nan, "ninf": -math.inf, "ok": 1.5} if nonfinite else {"ok": 1.5})
     f.set_outputs(tl.parent_node[0], tl.parent_node[1], n, inf)
-    out.append(("tailloop-rows-block-delta-nonfinite-floats", m.hugr))
+    out.append(("tailloop-rows-block-delta" + ("-nonfinite-floats" if nonfinite else ""), m.hugr))
 
     # several different extension operations held as generic ExtOp objects (one Python class), a function-typed wire, a one-block loop
     from hugr.std.logic import EXTENSION as LOGIC_EXT
